@@ -237,6 +237,11 @@ cfg_transaction! {
     pub mod transaction;
 }
 
+#[cfg(fe2o3_amqp_verif)]
+#[cfg(not(target_arch = "wasm32"))]
+#[allow(missing_docs)]
+pub mod verif;
+
 pub mod types {
     //! Re-exporting `fe2o3-amqp-types`
     pub use fe2o3_amqp_types::*;
